@@ -977,10 +977,10 @@ class C15(fw.Prop):
             meta.append((seed, p, t))
         st = {"generated": len(progs_), "outside_fragment(load)": outside, "builders_raised": raised, "evaluated": len(lits)}
         if lits:
-            res = fw.eval_cases(ctx.work, "run.C15ValidRun", lits, shard=40, checks=("tprem", "ttie", "tvalid", "tcircuit"),
+            res = fw.eval_cases(ctx.work, "run.C15ValidRun", lits, shard=40, checks=("tprem", "ttie", "tvalid", "ttwf"),
                                 tag="tvalid", case_type="tcase")
             st["premises_hold"] = len(lits) - len(res["tprem"])
-            st["pure_circuits(premise of C15_circuits_valid)"] = len(lits) - len(res["tcircuit"])
+            st["tracked_level_premise_twf_holds"] = len(lits) - len(res["ttwf"])
             for i in res["tprem"][:3]:
                 out.append(("premise-not-met", "a tracked-builder program of C01's generator inside the fragment does "
                             "not satisfy the premises of C15_tracked_programs_valid (the theorem would not speak about it)",
